@@ -38,7 +38,7 @@ def parse_iso(s):
 PROFILES = [
     "plain", "ties", "limits_type", "limits_seg", "limits_both", "scarce_depots", "no_depots_key",
     "empty_depots", "multi_cycle", "forbid", "multi_type", "coupled", "hitchhike", "nonmetric",
-    "two_days", "tiny", "tight", "bigshunt", "multi_cycle", "multi_cycle",
+    "two_days", "tiny", "tight", "bigshunt", "multi_cycle", "multi_cycle", "mc_overflow",
 ]
 
 
@@ -48,6 +48,9 @@ def gen_instance(seed, index, profile=None, max_trips=10, allow_weird=False):
         profile = PROFILES[index % len(PROFILES)]
     p = profile
     I = {"name": "i%d_%s" % (index, p), "profile": p}
+    overflow_cycles = p == "mc_overflow"   # several rotation cycles of vehicles living at the overflow depot
+    if overflow_cycles:
+        p = "multi_cycle"
 
     ntypes = 1
     if p == "multi_type" or rng.random() < 0.25:
@@ -221,7 +224,9 @@ def gen_instance(seed, index, profile=None, max_trips=10, allow_weird=False):
         I["maxDist"] = 0
 
     # ---- depots
-    if p in ("no_depots_key", "multi_cycle"):
+    if overflow_cycles:
+        given = True
+    elif p in ("no_depots_key", "multi_cycle"):
         given = False
     elif p == "empty_depots":
         given = True
@@ -229,11 +234,11 @@ def gen_instance(seed, index, profile=None, max_trips=10, allow_weird=False):
         given = rng.random() < 0.6
     I["depotsGiven"] = given
     depots = []
-    if given and p != "empty_depots":
+    if given and p != "empty_depots" and not (overflow_cycles and rng.random() < 0.5):
         nd = rng.choice([1, 2, 2, 3])
         for d in range(nd):
             cap = rng.choice([0, 1, 2, 3, 5, 8])
-            if p == "scarce_depots":
+            if p == "scarce_depots" or overflow_cycles:
                 cap = rng.choice([0, 1, 1, 2])
             allowed = []
             for t in types:
@@ -269,6 +274,8 @@ def spec_view(I):
 
 def render(I, rng=None):
     """Abstract instance -> input JSON in the README format."""
+    if "_input" in I:
+        return I["_input"]
     rng = rng or random.Random(zlib.crc32(I["name"].encode()))
 
     def opt(d, key, val, present):
@@ -409,3 +416,65 @@ def decoupled(I):
         if sum(min(c, d["cap"]) for c in caps) > d["cap"]:
             return False
     return True
+
+
+def from_input(inp, name="input"):
+    """README-format input JSON -> abstract instance (inverse of render; used for instances that
+    are not generated here, e.g. the repository's own test instance)."""
+    I = {"name": name, "profile": "given", "_input": inp}
+    I["types"] = [{"id": t["id"], "cap": t["capacity"], "seats": t["seats"],
+                   "limit": t.get("maximalFormationCount") if t.get("maximalFormationCount") is not None else -1}
+                  for t in inp["vehicleTypes"]]
+    I["locs"] = [l["id"] for l in inp["locations"]]
+    idx = inp["deadHeadTrips"]["indices"]
+    pos = {l: idx.index(l) for l in I["locs"]}
+    I["dhDur"] = [[inp["deadHeadTrips"]["durations"][pos[a]][pos[b]] for b in I["locs"]] for a in I["locs"]]
+    I["dhDist"] = [[inp["deadHeadTrips"]["distances"][pos[a]][pos[b]] for b in I["locs"]] for a in I["locs"]]
+    par = inp["parameters"]
+    I["shuntMin"] = par["shunting"]["minimalDuration"]
+    I["shuntDh"] = par["shunting"]["deadHeadTripDuration"]
+    I["forbid"] = bool(par.get("forbidDeadHeadTrips") or False)
+    I["maxDist"] = (par.get("maintenance") or {}).get("maximalDistance", 0)
+    c = par["costs"]
+    I["costs"] = {"staff": c["staff"], "svc": c["serviceTrip"], "mnt": c.get("maintenance") or 0,
+                  "dh": c["deadHeadTrip"], "idle": c["idle"]}
+    routes = {r["id"]: r for r in inp["routes"]}
+    trips = []
+    for d in inp["departures"]:
+        r = routes[d["route"]]
+        segs = {s["id"]: s for s in r["segments"]}
+        for s in d["segments"]:
+            rs = segs[s["routeSegment"]]
+            trips.append({"id": s["id"], "ty": r["vehicleType"], "route": r["id"], "seg": rs["id"], "depId": d["id"],
+                          "orig": rs["origin"], "dest": rs["destination"], "dep": parse_iso(s["departure"]),
+                          "dur": rs["duration"], "dist": rs["distance"], "pax": s["passengers"], "seated": s["seated"],
+                          "limit": rs.get("maximalFormationCount") if rs.get("maximalFormationCount") is not None else -1})
+    I["trips"] = trips
+    I["slots"] = [{"id": m["id"], "loc": m["location"], "start": parse_iso(m["start"]), "end": parse_iso(m["end"]),
+                   "tracks": m["trackCount"]} for m in (inp.get("maintenanceSlots") or [])]
+    # times relative to the midnight before the first activity (keeps them small and non-negative)
+    allt = [t["dep"] for t in trips] + [m["start"] for m in I["slots"]]
+    off = (min(allt) // 86400) * 86400 if allt else 0
+    for t in trips:
+        t["dep"] -= off
+    for m in I["slots"]:
+        m["start"] -= off
+        m["end"] -= off
+    I["_offset"] = off
+    I["depotsGiven"] = inp.get("depots") is not None
+    depots = []
+    if I["depotsGiven"]:
+        for d in inp["depots"]:
+            depots.append({"id": d["id"], "loc": d["location"], "cap": d["capacity"],
+                           "allowed": [{"ty": a["vehicleType"], "cap": a.get("capacity") if a.get("capacity") is not None else -1}
+                                       for a in d["allowedTypes"]]})
+    else:
+        for l in I["locs"]:
+            depots.append({"id": "depot_%s" % l, "loc": l, "cap": -1,
+                           "allowed": [{"ty": t["id"], "cap": -1} for t in I["types"]]})
+    for d in depots:
+        d["sn"] = "s_" + d["id"]
+        d["en"] = "e_" + d["id"]
+    I["depots"] = depots
+    I["hasSlots"] = inp.get("maintenanceSlots") is not None
+    return I
